@@ -914,6 +914,18 @@ def neutral_edit(desc: D, rng):
             if rng.random() < 0.7 and len(node.items) > 1:
                 rng.shuffle(node.items)
                 n += 1
+            if rng.random() < 0.3:
+                # the same keys spelt in another numeric type (6 -> 6.0, 1 -> True): dict lookup, and therefore every structural relation
+                # between two trees, treats them as the same key
+                present = {k for k, _ in node.items if isinstance(k, (int, float))}
+                for i, (k, ch) in enumerate(node.items):
+                    if type(k) is int and abs(k) < 2 ** 53 and rng.random() < 0.6:
+                        node.items[i] = (bool(k) if k in (0, 1) and rng.random() < 0.3 else float(k), ch)
+                        n += 1
+                    elif type(k) is float and k == k and k.is_integer() and abs(k) < 2 ** 53 and rng.random() < 0.6:
+                        node.items[i] = (int(k), ch)
+                        n += 1
+                del present
         elif node.k == 'deque' and rng.random() < 0.6:
             node.meta = rng.choice([None, len(node.items), len(node.items) + 5, 1000])
             n += 1
